@@ -3,6 +3,7 @@
 cases:
   {"kind": "pair",    "a": version, "b": version}
   {"kind": "pair",    "a": version, "b": version, "cls": [class name, class name]}
+  {"kind": "pair",    "a": version, "b": version, "cls": [class name, "str"]}   (or ["str", class name])
   {"kind": "pair",    "a": version, "b": version, "edits": [[attribute, value], ...]}
   {"kind": "triple",  "vs": [version, version, version]}
   {"kind": "objects", "a": version, "b": version, "cls": class name, "warm": bool,
@@ -29,6 +30,14 @@ exactly like a fresh ``Version(S)`` -- against that fresh object, against ``Vers
 of the other classes; a pair of two BaseVersion is skipped).  The library compares any two objects of the
 family with each other, so every clause - order as dpkg, trichotomy, antisymmetry, equal => equal hash,
 one set element, dict look-up - is demanded for every combination of classes.
+
+A ``cls`` entry "str" means that operand is given to the operators as the PLAIN VERSION STRING (the library converts a
+non-version operand itself; the repository's own test_comparisons compares (str, NativeVersion) and (NativeVersion, str)).
+The other operand is an object of Version / NativeVersion / a user subclass (never BaseVersion, never a second string).
+Demanded: all six operators, object on the left and string on the right AND string on the left and object on the right
+(Python then calls the object's reflected operator), answer exactly as dpkg orders the two version strings; ``in`` /
+``count`` on a one-element list follow ``==``; version_compare() given the object and the string agrees.  NOT demanded: any
+relation between hash(string) and hash(object) - a plain string is not a version object (on the unchanged tree they differ).
 
 ``objects``: object 0 is cls(a); every entry of ``dups`` adds a live object obtained from an earlier one
 (source index modulo the number of objects so far) by ``how`` = copy (copy.copy), deepcopy, pickle0..5
@@ -87,6 +96,17 @@ RULE = ("cases are ordered pairs (and triples) of valid version strings; enumera
         "spelled versions (gen.c03_versions.CLASS_POOL) x all 24 ordered pairs of classes out of Version, "
         "NativeVersion, two user subclasses of Version and BaseVersion (never both BaseVersion); generated - near-miss "
         "pairs with independently drawn classes. "
+        "AN OPERAND THAT IS A PLAIN STRING ('cls' with 'str'): enumerated - ALL ordered pairs of a 138-version pool "
+        "(gen.c03_versions.string_operand_pool: the 36-version class pool plus 12 upstream parts holding one or more "
+        "hyphens - first, last, doubled, next to '~' - x epoch absent/1 x 3 revisions, i.e. 80 versions with two or more "
+        "hyphens, 6 upstream parts holding colons, and their separator-free neighbours) x (Version object against the string, "
+        "NativeVersion object against the string, and - taking turns - a user-subclass object against the string or the "
+        "case spelled string-first); every case evaluates the six operators in BOTH operand orders, so every version of "
+        "the pool is the string on either side of every version as Version and as NativeVersion object; generated - near-miss pairs, three out of four from a separator-rich variant "
+        "of the full grammar (revision present 3/4, hyphens / colons allowed in the upstream part every second time), "
+        "the string on either side, the object of any of the four classes. Every live object of the 'edits' / 'objects' "
+        "cases is also compared (six operators, object on the left) with the other versions of its case given as plain "
+        "strings. "
         "OBJECTS OBTAINED ANOTHER WAY ('objects'): enumerated - 6 start versions x 4 donors x 8 ways of duplicating "
         "(copy.copy, copy.deepcopy, pickle protocols 2 and 5, the constructor called with the object / with its string / "
         "of another class) x 7 assignment attempts built from the donor x attempt on the original or on the duplicate x "
@@ -103,7 +123,8 @@ RULE = ("cases are ordered pairs (and triples) of valid version strings; enumera
         "non-trivial); a case with edits is also non-trivial when an attempt whose resulting string "
         "consists of version-alphabet characters only was refused and the object was then "
         "compared; a pair with classes is also non-trivial when the classes differ and the versions are equal "
-        "(identical strings included: the hash clause across classes); an objects case is non-trivial when at least "
+        "(identical strings included: the hash clause across classes); a pair with a string operand is also non-trivial "
+        "when that string holds two or more hyphens or two or more colons, or the versions are equal; an objects case is non-trivial when at least "
         "two objects are alive and at least one attempt was made and observed; "
         "distinct = distinct canonical JSON of the case")
 ASSUMPTIONS = [
@@ -124,6 +145,11 @@ ASSUMPTIONS = [
     "and are therefore held to all clauses; copies (copy.copy, copy.deepcopy, pickle round trip, constructor called "
     "with an object) are separate objects, each standing for the string it shows itself - that the copy shows the "
     "same string as its source is NOT demanded here, nor that copying is possible at all",
+    "a valid version string given directly as one operand of <, <=, ==, !=, >=, > (either side) stands for that version: "
+    "the statement orders 'version strings a and b' by 'the comparison operators', the library converts a non-version "
+    "operand itself and its own suite compares (str, NativeVersion) / (NativeVersion, str); two plain strings are never "
+    "compared (that is Python's string order), BaseVersion never faces a string (it cannot compare), and nothing is "
+    "demanded of hash(string)",
     "version syntax as decided by model/c14_recogniser (letter-led upstream versions count as valid: the "
     "repository's own tests compare '0' < 'a'; dpkg only warns)",
     "PYTHONHASHSEED=0 (boot.py); equal hashes are demanded only where the reference says 'equal'",
@@ -132,12 +158,14 @@ ASSUMPTIONS = [
 EXHAUSTIVE = {"quick": "all ordered pairs of the quick version pool (gen.c03_versions.pool('quick')); all ordered "
                        "pairs within each long-digit-run list (gen.c03_versions.long_run_groups()); every start x "
                        "donor x assignment template of gen.c03_versions.edit_cases(); all ordered pairs of "
-                       "gen.c03_versions.CLASS_POOL x all 24 class pairs; every case of gen.c03_versions.object_cases()",
+                       "gen.c03_versions.CLASS_POOL x all 24 class pairs; every case of gen.c03_versions.object_cases(); "
+                       "all ordered pairs of gen.c03_versions.string_operand_pool() x 3 (class, str) operand pairs",
               "thorough": "all ordered pairs of the quick version pool (the larger pool is sampled, not exhausted); "
                           "all ordered pairs of the whole long-digit-run pool (gen.c03_versions.long_run_pool()); "
                           "every start x donor x assignment template of gen.c03_versions.edit_cases(); all ordered "
                           "pairs of gen.c03_versions.CLASS_POOL x all 24 class pairs; every case of "
-                          "gen.c03_versions.object_cases()"}
+                          "gen.c03_versions.object_cases(); all ordered pairs of gen.c03_versions.string_operand_pool() "
+                          "x 3 (class, str) operand pairs"}
 BUDGET = {"quick": 200, "thorough": 1500}
 
 DIGITS = "0123456789"
@@ -328,6 +356,47 @@ def check_pair(a, b, ca=Version, cb=Version):
     return r, lib
 
 
+def check_string_operand(a, b, ca, cb):
+    """One operand is the plain version string (ca or cb is str), the other an object of a family class: the six
+    operators in both operand orders, membership and version_compare must follow dpkg's order of (a, b)."""
+    r = ref.reference(a, b)
+    x = a if ca is str else ca(a)
+    y = b if cb is str else cb(b)
+    what = "%s(%r) vs %s(%r)" % (ca.__name__, a, cb.__name__, b)
+    fwd, rev = _ops(x, y), _ops(y, x)
+    if fwd != _EXPECT[r]:
+        raise Violation("string-operand:order-differs-from-dpkg:" + decided_by(a, b, r),
+                        "%s: dpkg orders the versions as %d but <,==,>,<=,!=,>= give %s" % (what, r, fwd))
+    if rev != _EXPECT[-r]:
+        raise Violation("string-operand:order-differs-from-dpkg:" + decided_by(a, b, r),
+                        "%s: dpkg orders the versions as %d but with the operands exchanged <,==,>,<=,!=,>= give %s"
+                        % (what, r, rev))
+    if (y in [x]) != (r == 0) or (x in [y]) != (r == 0) or [x].count(y) != (r == 0) or [y].count(x) != (r == 0):
+        raise Violation("string-operand:membership-unlike-equality",
+                        "%s: dpkg says %d; 'in' gives %s / %s, count %d / %d" % (what, r, y in [x], x in [y],
+                                                                               [x].count(y), [y].count(x)))
+    vc, vcr = version_compare(x, y), version_compare(y, x)
+    if type(vc) is not int or ref.sign(vc) != r or vcr != -vc:
+        raise Violation("version_compare-differs", "%s: version_compare on these operands gives %r (exchanged: %r), "
+                        "dpkg says %d" % (what, vc, vcr, r))
+    return r
+
+
+def string_labels(a, b, ca, r):
+    s = a if ca is str else b
+    labels = set(["kind:pair+string-operand", "str-operand:" + ("left" if ca is str else "right")])
+    rich = False
+    if s.count("-") >= 2:
+        labels.add("str-operand:two-or-more-hyphens")
+        rich = True
+    if s.count(":") >= 2:
+        labels.add("str-operand:two-or-more-colons")
+        rich = True
+    if (a if ca is not str else b).count("-") >= 2:
+        labels.add("str-operand:object-has-two-or-more-hyphens")
+    return rich or r == 0, labels
+
+
 VERSION_ALPHABET = frozenset("abcdefghijklmnopqrstuvwxyzABCDEFGHIJKLMNOPQRSTUVWXYZ0123456789.+:~-")
 EDIT_ATTRS = ("full_version", "epoch", "upstream_version", "debian_revision")
 
@@ -368,6 +437,10 @@ def check_live_object(vm, s, others, history, sig=None):
     for o in others:
         r = ref.reference(s, o)
         vo = Version(o)
+        if _ops(vm, o) != _EXPECT[r]:       # the other version as a plain string operand
+            raise Violation(sig or "live-object-ordered-unlike-its-string-after-assignment-attempt",
+                            "%s: the object shows %r; dpkg orders %r vs %r as %d but against the plain string %r the "
+                            "operators <,==,>,<=,!=,>= give %s" % (history, s, s, o, r, o, _ops(vm, o)))
         if _ops(vm, vo) != _EXPECT[r] or _ops(vo, vm) != _EXPECT[-r]:
             raise Violation(sig or "live-object-ordered-unlike-its-string-after-assignment-attempt",
                             "%s: the object shows %r; dpkg orders %r vs %r as %d but the operators "
@@ -566,6 +639,18 @@ def check(case):
             if edits is None:
                 return (False, ("invalid-case-skipped",))
         ca = cb = Version
+        if "cls" in case and isinstance(case["cls"], list) and "str" in case["cls"]:
+            cls = case["cls"]
+            if not (len(cls) == 2 and edits is None and sorted(c in gen.FAMILY for c in cls) == [False, True]):
+                return (False, ("invalid-case-skipped",))
+            ca, cb = [str if c == "str" else CLASSES[c] for c in cls]
+            r = check_string_operand(a, b, ca, cb)
+            nontrivial, labels = pair_labels(a, b, r)
+            nt, sl = string_labels(a, b, ca, r)
+            labels.update(sl)
+            labels.add("kind:pair")
+            labels.add("cls:%s/%s" % (ca.__name__, cb.__name__))
+            return (nontrivial or nt, sorted(labels))
         if "cls" in case:
             cls = case["cls"]
             if not (isinstance(cls, list) and len(cls) == 2 and all(isinstance(c, str) and c in CLASSES for c in cls)
@@ -751,6 +836,9 @@ def sources(tier):
                 Hyp("edited-pairs", gen.edited_pair(), 1000, shards=2),
                 Enum("operand-classes", gen.class_pair_cases, "all ordered pairs of a 36-version pool x 24 class pairs"),
                 Hyp("classed-near-miss-pairs", gen.classed_pair(), 1200, shards=2),
+                Enum("string-operands", gen.string_operand_cases,
+                     "all ordered pairs of a 138-version pool x 3 (class, str) operand pairs"),
+                Hyp("string-operand-near-miss-pairs", gen.string_operand_pair(), 1500, shards=2),
                 Enum("objects-obtained-another-way", gen.object_cases,
                      "start x donor x way of duplicating x changed object x attempt x used-before (+ chains)"),
                 Hyp("duplicated-and-edited-objects", gen.object_case(), 1000, shards=2),
@@ -765,6 +853,9 @@ def sources(tier):
             Hyp("edited-pairs", gen.edited_pair(), 6000, shards=8),
             Enum("operand-classes", gen.class_pair_cases, "all ordered pairs of a 36-version pool x 24 class pairs"),
             Hyp("classed-near-miss-pairs", gen.classed_pair(), 8000, shards=8),
+            Enum("string-operands", gen.string_operand_cases,
+                 "all ordered pairs of a 138-version pool x 3 (class, str) operand pairs"),
+            Hyp("string-operand-near-miss-pairs", gen.string_operand_pair(), 10000, shards=8),
             Enum("objects-obtained-another-way", gen.object_cases,
                  "start x donor x way of duplicating x changed object x attempt x used-before (+ chains)"),
             Hyp("duplicated-and-edited-objects", gen.object_case(), 6000, shards=8),
